@@ -16,7 +16,10 @@ def _sp(rng, decorate):
 
 NOISE = ['; a comment line\n', '\n', '#ifdef FLEXIBLE\n', '#endif\n', '#include "ff.itp"\n', ';\n', '  \t \n',
          ';commented 1 2 3\n', '#define X 1\n', ' ; indented comment\n', '#else\n', '#ifndef POSRES\n', '#undef X\n',
-         '#if 1\n', '#elif 0\n']
+         '#if 1\n', '#elif 0\n',
+         # comments that look like section headers, comments with brackets, directives with a trailing comment
+         ';[ angles ]\n', '; [ position_restraints ]\n', '; --- [ exclusions ] ---\n', '; see ref. [1]\n',
+         '#ifdef FLEXIBLE ; softer terms\n', '#define gb_1 0.1 1.57e7 ; H-OA\n', '#endif ; FLEXIBLE\n']
 
 
 def _noise(rng, decorate, out, p=0.25):
